@@ -51,7 +51,7 @@ PROPS = {
     "C10": dict(streams=["script", "corpus"], fields=ALL_FIELDS, oracles=["O1", "O2", "O5", "O6", "O8"], contract=True,
                 title="re-entrant destructors"),
     "C11": dict(streams=["panic"], fields=["D", "P", "E", "F", "heapcounts", "roots"], oracles=["O1", "O2", "O5", "O6"],
-                contract=True, title="panicking destructor"),
+                contract=True, title="panicking destructor", panicapi=True),
     "C12": dict(streams=["api", "raw", "corpus"], fields=["heap", "R", "E", "D", "F", "vals", "roots", "raws", "C", "W"],
                 oracles=["O1", "O2", "O4", "O8"], contract=False, title="consuming APIs on adopted objects"),
     "C13": dict(streams=["elide", "corpus"], fields=["D", "E", "heap", "roots"], oracles=["O1", "O2"], contract=False,
@@ -564,6 +564,12 @@ def main():
         extra_cov["unmodelled_api_differential"] = line
         if rc != 0 or not line.startswith("ok"):
             extra_fail.append(("oracle", None, "O7:unmodelled shared API differs from std: " + line, [line]))
+    if cfg.get("panicapi"):
+        rc, o = sh([engine.HEXEC, "panicapi"], timeout=600)
+        line = o.strip().split("\n")[-1] if o.strip() else ""
+        extra_cov["make_mut_panic_fault_enumeration"] = line
+        if rc != 0 or not line.startswith("ok"):
+            extra_fail.append(("oracle", None, "O11:" + line, [line]))
     if cfg.get("layout"):
         cases = make_stream("contract_full", seed, tier)[: (600 if tier == "quick" else 8000)]
         base, n, bad = layout_check(cases, seed)
